@@ -18,15 +18,18 @@ def redirect(loc):
     return b"HTTP/1.1 302 Found\r\nLocation: " + loc + b"\r\nContent-Length: 0\r\n\r\n"
 
 
-def execute(queue, secure):
-    rig = httprig.HttpClientRig(secure)
+TAGS = [0, "", (), 3, "four", 5.0]      # application tags (reply=) of the requests of a queue: falsy ones are tags too
+
+
+def execute(queue, secure, make="scheme"):
+    rig = httprig.HttpClientRig(secure, make)
     problems = []
     try:
         for i, s in enumerate(queue):
             if i % 2:
-                rig.cli.request(method="POST", path="/p%d" % (i + 1), body=b"body%d" % i, rid=i + 1)
+                rig.cli.request(method="POST", path="/p%d" % (i + 1), body=b"body%d" % i, rid=i + 1, reply=TAGS[i % len(TAGS)])
             else:
-                rig.cli.request(method="GET", path="/p%d" % (i + 1), qargs={"n": str(i)}, rid=i + 1)
+                rig.cli.request(method="GET", path="/p%d" % (i + 1), qargs={"n": str(i)}, rid=i + 1, reply=TAGS[i % len(TAGS)])
         outstanding = 0
         delayed = []            # [rounds to go, bytes]
         hop = {}
@@ -88,7 +91,12 @@ def execute(queue, secure):
             rq = r.get("request") or {}
             rid = rq.get("rid")
             if rid is None and r.get("redirects"):
-                rid = (r["redirects"][0].get("request") or {}).get("rid")
+                rq = r["redirects"][0].get("request") or {}
+                rid = rq.get("rid")
+            if rid is not None and ("reply" not in rq or rq["reply"] != TAGS[(rid - 1) % len(TAGS)] or
+                                    type(rq["reply"]) is not type(TAGS[(rid - 1) % len(TAGS)])):
+                problems.append("the response to request %d does not carry the tag %r given with it: %r" % (
+                    rid, TAGS[(rid - 1) % len(TAGS)], rq.get("reply", "no reply entry")))
             res.append({"rid": rid, "kind": "errored" if r.get("errored") else "ok", "hops": len(r.get("redirects") or []),
                         "status": r.get("status"), "redirect_statuses": [x.get("status") for x in (r.get("redirects") or [])]})
         wire = []
@@ -142,12 +150,16 @@ def run(ctx):
             raise core.MachineryError("queue dump too small: %d" % len(recs))
         for i, rec in enumerate(recs):
             ctx.case((secure, tuple(rec["queue"])), {"secure": secure, "scripts": rec["queue"], "responses": rec["responses"]} if i == 150 else None)
-            real = execute(list(rec["queue"]), secure)
+            make = ("scheme", "connector")[i % 2]
+            real = execute(list(rec["queue"]), secure, make)
             bad = judge(rec, real, secure)
             if bad:
-                ctx.violation(bad, {"rec": rec, "secure": secure, "real": real})
+                ctx.violation(bad + (" [client made from a connector]" if make == "connector" else ""),
+                              {"rec": rec, "secure": secure, "real": real, "make": make})
     ctx.exhaustive = True
-    return ctx.finish(rule="one case per (http | https client, queue of 1-3 (quick) / 1-4 server scripts; closing scripts only last)",
+    return ctx.finish(rule="every request carries an application tag (reply=; 0, '' and () among them) that must come back with its response; "
+                           "clients are made alternately from (hostname, port, scheme) and from a ready tcp connector without scheme; "
+                           "one case per (http | https client, queue of 1-3 (quick) / 1-4 server scripts; closing scripts only last)",
                       assumptions=["the originating request of an entry is identified by an extra key given to Client.request(), looked up "
                                    "in the entry's request or, for a redirected request, in the first entry of its redirect history",
                                    "which server later requests go to after a redirect to another server is the implementation's choice "
@@ -157,6 +169,6 @@ def run(ctx):
 
 
 def replay_case(ctx, case):
-    real = execute(list(case["rec"]["queue"]), case["secure"])
+    real = execute(list(case["rec"]["queue"]), case["secure"], case.get("make", "scheme"))
     bad = judge(case["rec"], real, case["secure"])
     return [bad] if bad else []
